@@ -138,7 +138,10 @@ private:
     }
 
     ~node() override {
-      for (unsigned i = pop_idx; i < push_idx; i += step_size) {
+      // push_idx can exceed max_idx (every push that finds the node full still increments it), but
+      // only the entries below max_idx exist; everything below pop_idx has already been consumed.
+      const unsigned end = std::min<unsigned>(push_idx.load(std::memory_order_relaxed), max_idx);
+      for (unsigned i = pop_idx; i < end; i += step_size) {
         traits::delete_value(entries[i % entries_per_node].value.load(std::memory_order_relaxed).get());
       }
     }
